@@ -159,6 +159,8 @@ def plan(tier, seed):
         (corner("awk", prefix=A.DG, qubits=3, qid_alias={"q0": 2, "q1": 0, "q2": 1}, name="awk-dmm-first-int-ids"),
          A.timing(l="r", basis_l="ground-rydberg", dmm=True, faults=False), 2),
         (corner("real", prefix=A.GL, name="real-fall-tail"), A.fall_tail(rise=60, step=4), 4 if tier == "quick" else 3),
+        (corner("real", prefix=A.DEEP_GL_EOM, name="real-deep-root-in-eom"), tG, 2),
+        (corner("awk", prefix=A.DEEP_GL_AFTER, name="awk-deep-root-after-eom"), tG, 2),
     ]
     if tier == "thorough":
         worlds = [(w, a, d + 1) for w, a, d in worlds]
